@@ -31,7 +31,7 @@ def run(ck, pid="C03", theorems=THEOREMS, module="Properties_C03"):
 RULE = ("seeded schedules of the REAL buffer group + worker threads under the deterministic scheduler shim (uniform random and PCT-style priority schedulers, with and without extra yields inside critical sections), "
         "T in {1,2,3,4,5,16} x inputs of 0..5 chunks incl. exact chunk multiples, both directions, tagging stream objects (stream id + sequence number in every block); for every schedule: output bytes = sequential reference, no deadlock/livelock, "
         "ownership monitor over the event stream, and the whole event trace replayed step by step on the extracted Coq transition system (same events, same number of enabled threads, same output); plus whole encrypt/decrypt runs under random schedules. distinct = distinct (T, direction, length, schedule)")
-ASSUME = ["condition variables have no spurious wake-ups", "the C++ memory model below the granularity of the recorded scheduling points (torn reads, reordering) is outside the model: data-race freedom at that granularity is C14; TSan runs are a thorough-tier test"]
+ASSUME = ["spurious wake-ups of condition variables are part of the model (schedulable actions T+1+j) since the second round: no assumption left about them", "the C++ memory model below the granularity of the recorded scheduling points (torn reads, reordering) is outside the model: data-race freedom at that granularity is C14; TSan runs are a thorough-tier test"]
 
 
 def analyse(ck, res, want):
